@@ -162,7 +162,32 @@ fn run_case(_i: usize, mut rng: jjv::Rng) -> CaseOut {
     CaseOut { term, nontrivial: moved, shape, panicked }
 }
 
+/// Replay of the known finding "sparse-removal-skipped-assert" on the real code
+/// (`C27_PROBE=1 target/debug/c27`): prints what happens.
+fn probe() {
+    let scratch = std::env::temp_dir();
+    let _ = scratch;
+    let mut ws = Ws::new();
+    let mut t = Tree::new();
+    t.insert(vec!["x".into(), "f".into()], TVal::File("1".into(), false));
+    t.insert(vec!["y".into()], TVal::File("2".into(), false));
+    let tm = write_tree(&ws.store(), &t);
+    println!("check_out: {:?}", outcome(ws.check_out(&tm)));
+    println!("set_sparse [x]: {:?}", outcome(ws.set_sparse(&[vec!["x".to_string()]])));
+    std::fs::remove_dir_all(ws.root.join("x")).unwrap();
+    std::fs::write(ws.root.join("x"), b"o").unwrap();
+    std::panic::set_hook(Box::new(|info| println!("panic: {info}")));
+    println!("set_sparse [y]: {:?}", outcome(ws.set_sparse(&[vec!["y".to_string()]])));
+    println!("disk: {:?}", list_disk(&ws.root).keys().collect::<Vec<_>>());
+    println!("sparse recorded: {:?}", ws.sparse());
+    println!("snapshot: {:?}", ws.snapshot_tracked_only().as_ref().and_then(read_tree));
+}
+
 fn main() {
+    if std::env::var("C27_PROBE").is_ok() {
+        probe();
+        return;
+    }
     jjv::run("C27", "C27", |ctx| {
         // TestEnvironment creates its directories under TMPDIR: keep them in our scratch
         unsafe { std::env::set_var("TMPDIR", &ctx.scratch) };
